@@ -1,5 +1,8 @@
 import LanceModel.C43.PathLemmas
 import LanceModel.C43.InterLemmas
+import LanceModel.C43.ExcludeLemmas
+import LanceModel.C43.SetIdLemmas
+import LanceModel.C43.MergeLemmas
 /-
 C43 property theorems.  Statement (properties.jsonl): schema projection by names or ids, exclusion, intersection and
 merging, and the union/subtract/intersect operations on projections, behave as the corresponding set operations on field
@@ -212,6 +215,27 @@ example : (match Schema.exclude exS (exS.projectByIds [5] false) with
     | .ok r => idsL r | .error _ => []) = [0, 1, 2, 3, 4, 6] := by rfl
 example : (match Schema.exclude exS exS with | .ok r => idsL r | .error _ => [0]) = [] := by rfl
 
+/-- I \ J on leaves: excluding a sub-schema `o` (same names, ids, attributes; e.g. a projection) from a well-formed
+    schema succeeds and keeps exactly the primitive fields (identified by their name paths, which are unique in a
+    well-formed schema) that are not primitive fields of `o`, in schema order; by `exclude_sub` the nested fields that
+    remain are the ancestors of those leaves (or untouched sub-trees). -/
+theorem exclude_sub_schema (s o : Schema) (hsub : SubL o s) (hwf : s.wf = true) :
+    ∃ r, Schema.exclude s o = .ok r ∧ SubL r s ∧
+      leafPathsL r = (leafPathsL s).filter (fun p => !(leafPathsL o).contains p) := by
+  simp only [Schema.wf, Bool.and_eq_true] at hwf
+  obtain ⟨r, hr, hp⟩ := excludeL_leafPaths s o hsub hwf.1 hwf.2
+  rw [← Schema.exclude_eq_excludeL] at hr
+  exact ⟨r, hr, Schema.exclude_sub s o r hr, hp⟩
+
+/-- instance: removing a by-id projection of the same schema -/
+theorem exclude_projection (s : Schema) (I : List Int) (all : Bool) (hwf : s.wf = true) :
+    ∃ r, Schema.exclude s (s.projectByIds I all) = .ok r ∧ SubL r s ∧
+      leafPathsL r = (leafPathsL s).filter (fun p => !(leafPathsL (s.projectByIds I all)).contains p) :=
+  exclude_sub_schema s _ (projectByIds_sub s I all) hwf
+
+example : (match Schema.exclude exS (exS.projectByIds [5, 1] false) with
+    | .ok r => leafPathsL r | .error _ => []) = [[['a'], ['`']], [['l'], ['i'], ['y']]] := by rfl
+
 /-! ## intersection -/
 
 /-- J ⊆ I → I ∩ J = J: intersecting a well-formed schema with any of its sub-schemas (same names, ids, attributes;
@@ -231,5 +255,61 @@ example : exS.wf = true := by rfl
 example : dtAllL (exS.projectByIds [6, 1] false) = true := by rfl
 example : (match Schema.inter exS false (exS.projectByIds [6, 1] false) with
     | .ok r => idsL r | .error _ => []) = [0, 1, 3, 4, 6] := by rfl
+
+/-! ## merge -/
+
+/-- `Schema::merge` only adds fields: the left schema is a sub-schema of the result, i.e. each of its fields is still
+    there with its name, id, type, nullability and metadata, in the same relative order (new fields carry id -1 until
+    `set_field_id` numbers them, see `setFieldId_spec`). -/
+theorem merge_extends (s o r : Schema) (h : Schema.merge s o = .ok r) : SubL s r := Schema.merge_sub s o r h
+
+example : (match Schema.merge (exS.projectByIds [1] false) (exS.projectByIds [2, 6] false) with
+    | .ok r => idsL r | .error _ => []) = [0, 1, -1, -1, -1, -1] := by rfl
+
+/-! ## set_field_id -/
+
+def optD (o : Option Int) : Int := match o with | some m => m | none => -1
+
+/-- the seed `Schema::set_field_id` starts from -/
+def seedOf (s : Schema) (maxExisting : Option Int) : Int := maxInt (optD s.maxFieldId) (optD maxExisting) + 1
+
+theorem setFieldId_eq (s : Schema) (m : Option Int) : s.setFieldId m = (setIdL s (seedOf s m)).1 := rfl
+
+/-- `set_field_id` changes nothing but ids; the pre-order id list is the old one with every negative id replaced by
+    the next unused number, starting above every id of the schema and above `max_existing_id`; hence non-negative ids
+    are kept, every new id is ≥ 0, larger than all old ids and than `max_existing_id`, and new ids are pairwise
+    distinct (`relabel` hands out consecutive numbers). -/
+theorem setFieldId_spec (s : Schema) (m : Option Int) :
+    resetIdL (s.setFieldId m) = resetIdL s
+    ∧ idsL (s.setFieldId m) = relabel (idsL s) (seedOf s m)
+    ∧ (∀ i ∈ idsL s, i < seedOf s m) ∧ 0 ≤ seedOf s m ∧ (∀ x, m = some x → x < seedOf s m)
+    ∧ ∀ j ∈ idsL (s.setFieldId m), (j ∈ idsL s ∧ 0 ≤ j) ∨ seedOf s m ≤ j := by
+  have hids : idsL (s.setFieldId m) = relabel (idsL s) (seedOf s m) := by
+    rw [setFieldId_eq]; exact (setIdL_ids s _).1
+  have h1 := maxInt_ge_left (optD s.maxFieldId) (optD m)
+  have h2 := maxInt_ge_right (optD s.maxFieldId) (optD m)
+  refine ⟨by rw [setFieldId_eq]; exact setIdL_shape s _, hids, ?_, ?_, ?_, ?_⟩
+  · intro i hi
+    obtain ⟨mx, hmx, hle⟩ := idsL_le_maxIdL s i hi
+    have : optD s.maxFieldId = mx := by simp [optD, Schema.maxFieldId, hmx]
+    simp only [seedOf]
+    omega
+  · have ha : (-1 : Int) ≤ optD s.maxFieldId := by
+      cases hm : s.maxFieldId with
+      | none => simp [optD]
+      | some mx => simp only [optD]; exact maxIdL_ge s mx hm
+    simp only [seedOf]
+    omega
+  · intro x hx; subst hx
+    simp only [seedOf, optD] at h2 ⊢
+    omega
+  · intro j hj
+    rw [hids] at hj
+    rcases relabel_mem _ _ _ hj with h | h
+    · exact Or.inl h
+    · exact Or.inr h.1
+
+example : idsL (Schema.setFieldId [.mk ['a'] (-1) .struct true 0 [.mk ['b'] 7 (.leaf 0) true 0 [], .mk ['c'] (-1) (.leaf 0) true 0 []]]
+    (some 9)) = [10, 7, 11] := by rfl
 
 end LanceModel.C43
